@@ -127,6 +127,7 @@ theorem apply_wreachable (C : ChainCfg σ) (W : World) (h p : Nat)
     simp only at ha; split at ha <;> cases ha
     exact WReachable.step hr (set_node_step C W h p N _ hent hgood (NodeStep.own N k))
   | byz m => cases hop
+  | restart q => cases hop
 
 /-- every applied op is a `WStep`, or a `WStep.node` followed by `own` steps of the same node -/
 theorem applyOp_reachable (C : ChainCfg σ) (W W' : World) (h : Nat) (d : Bool) (op : Op)
